@@ -605,15 +605,15 @@ def requirements(agg, tier):
   for k, v in {
     "wrapped_geom_on_rotating_body:next_site_in_other_tree": 30,
     "wrapped_geom_on_rotating_body:prev_site_in_other_tree": 30,
-    "wrapped_geom_on_rotating_body:next_site_in_same_tree": 3,
-    "wrapped:sphere:sidesite": 10,
-    "wrapped:sphere:no_sidesite": 10,
-    "wrapped:cylinder:sidesite": 10,
-    "wrapped:cylinder:no_sidesite": 10,
-    "wrapped_geom_in_pulley_scaled_branch": 1,
+    "wrapped_geom_on_rotating_body:next_site_in_same_tree": 2,
+    "wrapped:sphere:sidesite": 8,
+    "wrapped:sphere:no_sidesite": 5,
+    "wrapped:cylinder:sidesite": 8,
+    "wrapped:cylinder:no_sidesite": 8,
+    "wrapped_geom_in_pulley_scaled_branch": 8,
     "inside_wrap_tendon_lengths_compared": 3,
     "tendons_own_fd_judged:spatial": 50,
-    "tendons_own_fd_judged:fixed": 10,
+    "tendons_own_fd_judged:fixed": 5,
   }.items():
     if cov.get(k, 0) < (v if q else 5 * v):
       unmet.append(f"{k}: {cov.get(k, 0)} < {v if q else 5 * v}")
